@@ -27,7 +27,11 @@ from twisted.internet.base import DelayedCall
 from twisted.python.failure import Failure
 from zope.interface import directlyProvides, implementer
 
+import re
+
 from .kernel import HarnessError, SimCancelled, Violation
+
+_HOME_RE = re.compile(rb'txdbus-sim-\d+/(?:j[^/]{1,12}rg-)?w\d+')
 
 OPEN, CLOSING, LOST = 'open', 'closing', 'lost'
 
@@ -133,7 +137,10 @@ class SimTransport:
         p.bounds.append(p.total)
         self.nwrites += 1
         self.written += len(data)
-        self.sim.log('w', self.name, len(data), hashlib.sha1(data).hexdigest()[:8])
+        # (the scratch home of the synthetic user is named after the worker process: what is
+        # logged must not depend on it)
+        logged = _HOME_RE.sub(b'HOME', data) if b'txdbus-sim-' in data else data
+        self.sim.log('w', self.name, len(logged), hashlib.sha1(logged).hexdigest()[:8])
         for t in self.taps:
             t(data)
 
